@@ -13,9 +13,12 @@ def wrapped(world, pre, r, do):
     except Exception:
         print("---- raised at", json.dumps(r, default=str)); traceback.print_exc(limit=6); raise
 actions._execute = wrapped
-g = gen.Gen(sd, prof)
+import os, time
+g = gen.Gen(sd, prof, overrides=({"scenario": os.environ["VERIF_SCEN"]} if os.environ.get("VERIF_SCEN") else None))
+T0=[time.time()]
 cfg = {"seed": sd, "contraction": g.contraction, "ops": g.ops}
 def hook(world, pre, post, r, res, viols):
+    t=time.time(); print(f"[{t-T0[0]:.1f}s]", end=" "); T0[0]=t
     print(r["sid"], json.dumps({k:v for k,v in r.items() if k not in ("sid","client")}, default=str), "->", res.status, res.exc or "", runner.ret_digest(world,res.ret) if res.status=="ok" else "")
     for v in viols:
         print("     !!", v.props, v.oracle, v.failure, v.detail)
